@@ -19,17 +19,32 @@ import (
 
 type parityCase struct {
 	Sources, Records int
+	Dests            int
 	Window, Thresh   int
-	Reject           []string // "<src>:<idx>"
+	Reject           []string // "<src>:<idx>", rejected by destination d0 only
+	Split            bool     // a pipeline processor splits every record in two
 }
 
 func (c parityCase) String() string {
-	return fmt.Sprintf("sources=%d records=%d window=%d/%d reject=%v", c.Sources, c.Records, c.Window, c.Thresh, c.Reject)
+	return fmt.Sprintf("sources=%d dests=%d split=%v records=%d window=%d/%d reject(d0)=%v", c.Sources, c.Dests, c.Split, c.Records, c.Window, c.Thresh, c.Reject)
 }
 
 func (c parityCase) params(engine string) flowParams {
-	p := flowParams{Engine: engine, Sources: c.Sources, Records: c.Records, Batch: 1, Dests: 1, AckMenu: onlyOK, Window: c.Window, Thresh: c.Thresh, Retries: -1,
+	p := flowParams{Engine: engine, Sources: c.Sources, Records: c.Records, Batch: 1, Dests: c.Dests, AckMenu: onlyOK, Window: c.Window, Thresh: c.Thresh, Retries: -1,
 		Reject: map[string][]string{"d0": c.Reject}}
+	if c.Split {
+		// every record is split in two; "rejecting record i" = the destination rejects its FIRST piece
+		kinds := make([]string, c.Records)
+		for i := range kinds {
+			kinds[i] = "2"
+		}
+		p.Procs = []procParam{{ID: "pp", Kinds: kinds}}
+		var rej []string
+		for _, r := range c.Reject {
+			rej = append(rej, r+":0/2")
+		}
+		p.Reject = map[string][]string{"d0": rej}
+	}
 	return p
 }
 
@@ -67,7 +82,7 @@ func TestVerifC07EngineParity(t *testing.T) {
 	}()
 	var cases []parityCase
 	// every subset of rejected records, single-source and two-source pipelines, a few windows
-	for _, topo := range [][2]int{{1, 4}, {2, 2}} {
+	for _, topo := range [][4]int{{1, 4, 1, 0}, {2, 2, 1, 0}, {1, 3, 2, 0}} {
 		srcs, recs := topo[0], topo[1]
 		var units []string
 		for s := 0; s < srcs; s++ {
@@ -83,7 +98,7 @@ func TestVerifC07EngineParity(t *testing.T) {
 						rej = append(rej, u)
 					}
 				}
-				cases = append(cases, parityCase{Sources: srcs, Records: recs, Window: w[0], Thresh: w[1], Reject: rej})
+				cases = append(cases, parityCase{Sources: srcs, Records: recs, Dests: topo[2], Split: topo[3] == 1, Window: w[0], Thresh: w[1], Reject: rej})
 			}
 		}
 	}
